@@ -590,6 +590,14 @@ func (e fixEvaluator) MulSwap(op0, op1, opOut *rlwe.Ciphertext) {
 	opOut.Scale = op0.Scale.Mul(t1.Scale)
 }
 
+// OUTDEG control: components written up to the operand's degree only, the output never resized by the operation
+func (e fixEvaluator) SumLow(op0, op1, opOut *rlwe.Ciphertext) {
+	for i := 0; i < op0.Degree()+1; i++ {
+		e.r.Add(op0.Value[i], op1.Value[i], opOut.Value[i])
+	}
+	*opOut.MetaData = *op0.MetaData
+}
+
 func rnsBad(r *ring.Ring, v uint64) (rns ring.RNSScalar) {
 	rns = make(ring.RNSScalar, r.Level()+1)
 	for i := range rns {
